@@ -136,3 +136,22 @@ Theorem C14_dav_client_decoding_agrees : forall X,
   (forall d, rel (fun i p => p = DavClient.i_path i) (DavClient.file_info_from_response X d) (file_info (emb_d X d))).
 Proof. exact dav_client_decoding_agrees. Qed.
 Print Assumptions C14_dav_client_decoding_agrees.
+
+(** The C14 model and the C10 model (Objects.v) of the object-list readers
+    (decodeCalendarObjectList / decodeAddressList behind QueryCalendar, MultiGetCalendar,
+    QueryAddressBook, MultiGetAddressBook): on a 207 answer whose multi-status decodes — in
+    ClientTotal — to the responses [rs] C10 decoded (written over by [o_emb], the property values
+    annotated with what C10's codecs make of their text), both end alike: the same object paths
+    are handed out, an HTTPError has the same code, any other error is any other error.
+    Partial: the two decoders from the element tree to the responses (ObjXml.dec_multistatus
+    filters the children per field, ClientTotal.dec_multistatus folds over them; different tree
+    types) are not related here — the hypothesis [spec_ms h = Some (map (o_emb cd fl) rs)] stands
+    for that step. *)
+Theorem C14_agrees_with_objects_model_partial : forall cd fl m path h rs tok,
+  In m (o_meths fl) -> h_status h = 207%N -> spec_ms h = Some (map (o_emb cd fl) rs) ->
+  (forall r, In r rs -> o_codes_ok r) ->
+  o_rel (fun vs v => v = VPaths (map Objects.v_path vs))
+        (Objects.decode_object_list cd fl {| ObjXml.ms_responses := rs; ObjXml.ms_sync_token := tok |})
+        (run m path (Resp h)).
+Proof. exact agrees_with_objects_model. Qed.
+Print Assumptions C14_agrees_with_objects_model_partial.
